@@ -150,6 +150,7 @@ class Atoms:
         self.rng = {}
         self.meta = {}
         self._floors = {}
+        self.splits = {}
 
     def declare(self, name, lo=None, hi=None, **meta):
         self.rng[name] = (None if lo is None else _coerce(lo), None if hi is None else _coerce(hi))
@@ -170,6 +171,7 @@ class Atoms:
         a.rng = dict(self.rng)
         a.meta = dict(self.meta)
         a._floors = dict(self._floors)
+        a.splits = dict(self.splits)
         return a
 
     # -- bounds -----------------------------------------------------------
@@ -284,10 +286,67 @@ class Atoms:
 
     rational_const_div = False
 
+    def poly_div(self, p, d):
+        """exact quotient p / d for a non-monomial divisor (multivariate long division), else None."""
+        p, d = _coerce(p), _coerce(d)
+        if d.is_zero():
+            return None
+        key = lambda kv: (sum(e for a, e in kv[0]), kv[0])
+        dl_k, dl_v = max(d.t.items(), key=key)
+        q = Poly()
+        rem = Poly(dict(p.t))
+        for _ in range(200):
+            if rem.is_zero():
+                return q
+            rl_k, rl_v = max(rem.t.items(), key=key)
+            m = dict(rl_k)
+            for a, e in dl_k:
+                m[a] = m.get(a, 0) - e
+            if any(e < 0 for e in m.values()):
+                return None
+            t = Poly({tuple(sorted((a, e) for a, e in m.items() if e != 0)): rl_v / dl_v})
+            q = q + t
+            rem = rem - t * d
+        return None
+
+    def split_loop(self, a, d):
+        """loop atom a ranging over count = c*d is the two-digit number  d*a.hi + a.lo  (a.lo < d, a.hi < c)."""
+        if a in self.splits:
+            return self.splits[a][0] == d
+        meta = self.meta.get(a, {})
+        cnt = meta.get('count')
+        if meta.get('kind') != 'loop' or not isinstance(cnt, Poly):
+            return False
+        c = self.exact_div(cnt, d) if d.is_monomial() else None
+        if c is None or c == cnt or c.is_const():
+            return False
+        hi = self.declare(a + '.hi', 0, c, kind='loop', count=c, parent=a, node=meta.get('node'))
+        lo = self.declare(a + '.lo', 0, d, kind='loop', count=d, parent=a, node=meta.get('node'))
+        self.splits[a] = (d, d * hi + lo)
+        return True
+
+    def canon(self, p):
+        """apply the registered loop splits."""
+        if not isinstance(p, Poly) or not self.splits:
+            return p
+        m = {a: v[1] for a, v in self.splits.items() if a in p.atoms()}
+        return p.subst(m) if m else p
+
     def floordiv(self, p, d):
         p, d = _coerce(p), _coerce(d)
         if d == C(1):
             return p
+        if not d.is_monomial():
+            q = self.poly_div(p, d)
+            if q is not None:
+                return q
+        # a loop variable over a product range divided by one factor of the range: split it into two digits
+        if d.is_monomial() and not d.is_const():
+            for a in list(p.atoms()):
+                if self.meta.get(a, {}).get('kind') == 'loop' and a not in self.splits and \
+                        p.coeff_of(((a, 1),)) == 1:
+                    self.split_loop(a, d)
+        p = self.canon(p)
         if self.rational_const_div and d.is_const() and d.const_value() > 0 and not p.is_const():
             return p * C(1 / d.const_value())
         if p.is_const() and d.is_const() and d.const_value() != 0:
@@ -347,7 +406,8 @@ class Atoms:
 
     def mod(self, p, d):
         p, d = _coerce(p), _coerce(d)
-        return p - d * self.floordiv(p, d)
+        q = self.floordiv(p, d)
+        return self.canon(p) - d * q
 
     def ceildiv(self, p, d):
         return self.floordiv(_coerce(p) + _coerce(d) - 1, d)
